@@ -42,6 +42,8 @@ def correspondence(ctx):
         cases.append(f'prof|op|enforce|f|b|{hexs(s_)}|')
     for s_ in structured_strings(ctx, 600 if ctx.tier == 'quick' else 8000, ['filler_ascii', 'filler_2', 'filler_3', 'filler_4', 'cased', 'wide', 'space', 'space', 'marks', 'marks', 'compat', 'hangul', 'ctx']):
         cases.append(f'prof|op|enforce|f|b|{hexs(s_)}|')
+    for s_ in composition_pair_strings(ctx) + product_strings(ctx, tails=[0xC5, 0x212B, 0x301, 0xA0, 0x3000, 0xFB01, 0x41], heads=[[], [0x41, 0x30A]], extra_long=False):
+        cases.append(f'prof|op|enforce|f|b|{hexs(s_)}|')
     cases += fuzz_cases(ctx, {2, 7, 10})      # coverage-guided search of the tree under check (only when the source changed / thorough)
     res = run_cases(cases, ctx.work)
     zset = set(zs)
